@@ -6,6 +6,7 @@ import (
 	"encoding/hex"
 	"encoding/json"
 	"fmt"
+	"math/rand"
 	"os"
 	"os/exec"
 	"path/filepath"
@@ -50,20 +51,20 @@ type Survivor struct {
 
 // MutateReport is what TestMutate hands to the driver.
 type MutateReport struct {
-	Mutants     int                       `json:"mutants"`
-	Files       int                       `json:"files"`
-	Classes     map[string]int            `json:"classes"`  // how mutants were rejected
-	ByAlt       map[string]int            `json:"by_alt"`   // mutants per alteration kind
-	Coverage    map[string]map[string]int `json:"coverage"` // "<version> <leaf pattern>" -> rejection class -> count (value-changing alterations only)
-	Allowed     map[string]int            `json:"allowed"`  // enumerated legitimate exceptions -> count
+	Mutants  int                       `json:"mutants"`
+	Files    int                       `json:"files"`
+	Classes  map[string]int            `json:"classes"`  // how mutants were rejected
+	ByAlt    map[string]int            `json:"by_alt"`   // mutants per alteration kind
+	Coverage map[string]map[string]int `json:"coverage"` // "<version> <leaf pattern>" -> rejection class -> count (value-changing alterations only)
+	Allowed  map[string]int            `json:"allowed"`  // enumerated legitimate exceptions -> count
 	// HashGaps: alterations that the hashes alone do not detect (seen on golden files, whose signatures
 	// cannot be checked) but that full verification of a fresh file of the same version rejects.
-	HashGaps map[string]int `json:"hash_only_gaps_closed_by_other_checks"`
-	Survivors   []Survivor                `json:"survivors"`
-	Panics      []Survivor                `json:"panics"`
-	RoundTrips  int                       `json:"round_trips"`
-	RoundTripNG []string                  `json:"round_trip_failures"`
-	Baselines   []string                  `json:"baseline_failures"`
+	HashGaps    map[string]int `json:"hash_only_gaps_closed_by_other_checks"`
+	Survivors   []Survivor     `json:"survivors"`
+	Panics      []Survivor     `json:"panics"`
+	RoundTrips  int            `json:"round_trips"`
+	RoundTripNG []string       `json:"round_trip_failures"`
+	Baselines   []string       `json:"baseline_failures"`
 }
 
 var reAddrLeaf = regexp.MustCompile(`(^|\.)(address|fee_recipient_address|withdrawal_address)$`)
@@ -233,14 +234,16 @@ func (c *campaign) run(src Source, doc []byte, isLock, withSigs bool) {
 		switch {
 		case vnum(src.Version) <= vnum("v1.2.0") && f6Leaf.MatchString(pat) && m.Alt == "str.appendNUL":
 			s.Class, s.Key = "F6", "F6:legacy-string-padding"
-		case strings.HasSuffix(pat, "builder_registration.message.fee_recipient") && m.Alt == "hex.append00":
-			s.Class, s.Key = "violation", "F12:registration-fee-recipient-padding"
+		case strings.HasSuffix(pat, "builder_registration.message.fee_recipient") && (m.Alt == "hex.append00" || m.Alt == "hex.droplast"):
+			// zero padding on the right is invisible to the bare PutBytes of hashRegistration
+			s.Class, s.Key = "violation", "registration-fee-recipient-padding"
 		default:
 			s.Class, s.Key = "violation", "mutation-verifies:"+src.Version+":"+pat+":"+m.Alt
-			if !withSigs {
-				c.pending = append(c.pending, s)
-				return
-			}
+		}
+		if !withSigs {
+			// golden file: only the hashes were judged; the fresh files of this version decide
+			c.pending = append(c.pending, s)
+			return
 		}
 		c.rep.Survivors = append(c.rep.Survivors, s)
 	})
@@ -302,6 +305,53 @@ func (c *campaign) roundTrip(src Source, doc []byte, isLock bool) {
 			fail("encoding is not idempotent")
 		}
 	}
+}
+
+// addressShift is an adversarial two-field alteration suggested by the well-formedness analysis of
+// the generated hash programs: up to v1.4 the single fee-recipient / withdrawal address pair is
+// hashed by PutBytes calls that append nothing for an empty value, so a file with only a fee
+// recipient address and the same file with that address moved to withdrawal_address have the same
+// chunk sequence.  It builds a fully signed lock with fee recipient A and no withdrawal address and
+// returns it with its altered twin.
+func addressShift(t *testing.T, version string, seed int) (orig, mutated []byte) {
+	t.Helper()
+	const a = "0x52fdfc072182654f163f5f0f9a621d729566c74d"
+	r := rand.New(rand.NewSource(int64(seed))) //nolint:gosec
+	lock, keys, shares := cluster.NewForT(t, 1, 3, 4, seed, r, cluster.WithVersion(version), cluster.WithLegacyVAddrs(a, ""),
+		func(d *cluster.Definition) {
+			d.TargetGasLimit = 0
+			d.Timestamp = "2022-07-19T18:19:58+02:00"
+		})
+	for i := range lock.Validators {
+		lock.Validators[i].BuilderRegistration = cluster.BuilderRegistration{}
+	}
+	lock = resign(t, lock, keys, shares)
+	orig, err := json.Marshal(lock)
+	if err != nil {
+		t.Fatal(err)
+	}
+	tree, _ := decodeTree(orig)
+	def := tree.(map[string]any)["cluster_definition"].(map[string]any)
+	delete(def, "fee_recipient_address")
+	def["withdrawal_address"] = a
+	mutated, _ = json.Marshal(tree)
+	return orig, mutated
+}
+
+// zeroAddressEmptied builds a fully signed lock whose withdrawal addresses are the zero address and
+// its twin with the first one replaced by the empty string.
+func zeroAddressEmptied(t *testing.T, sp FreshSpec) (orig, mutated []byte) {
+	t.Helper()
+	lock, _, _ := freshLock(t, sp)
+	orig, err := json.Marshal(lock)
+	if err != nil {
+		t.Fatal(err)
+	}
+	tree, _ := decodeTree(orig)
+	v := tree.(map[string]any)["cluster_definition"].(map[string]any)["validators"].([]any)[0].(map[string]any)
+	v["withdrawal_address"] = ""
+	mutated, _ = json.Marshal(tree)
+	return orig, mutated
 }
 
 func goldenSources(t *testing.T) []struct {
@@ -386,6 +436,44 @@ func TestMutate(t *testing.T) {
 				t.Fatal(err)
 			}
 			c.run(Source{Kind: "cli-lock", Version: Versions[len(Versions)-1], Shape: &sh}, b, true, true)
+		}
+	}
+	// adversarial two-field template (formats with a single address pair: up to v1.4)
+	for _, v := range Versions[:5] {
+		orig, mut := addressShift(t, v, 7)
+		c0, d0 := verifyLockJSON(orig, true)
+		if c0 != "ok" {
+			c.rep.Baselines = append(c.rep.Baselines, fmt.Sprintf("template address-shift %s: lock with only a fee recipient address fails verification: %s %s", v, c0, d0))
+			continue
+		}
+		c.rep.Mutants++
+		c.rep.ByAlt["template.address-shift"]++
+		c1, _ := verifyLockJSON(mut, true)
+		c.rep.Classes[c1]++
+		if c1 == "ok" {
+			c.rep.Survivors = append(c.rep.Survivors, Survivor{Source: Source{Kind: "template-address-shift", Version: v},
+				Mutation: Mutation{Path: "cluster_definition.fee_recipient_address -> cluster_definition.withdrawal_address", Alt: "template.address-shift"},
+				Class:    "violation", Key: "legacy-address-shift", Orig: "fee_recipient_address=A, no withdrawal_address", New: "no fee_recipient_address, withdrawal_address=A"})
+		}
+	}
+	// adversarial template: from v1.5 an address is hashed as its 20 decoded bytes and the EMPTY string
+	// as 20 zero bytes, so a zero withdrawal address can be emptied
+	for _, v := range Versions[5:] {
+		sp := FreshSpec{Version: v, DV: 1, K: 2, N: 3, Seed: 9, Network: "hoodi", ZeroWithdrawal: true}
+		orig, mut := zeroAddressEmptied(t, sp)
+		c0, d0 := verifyLockJSON(orig, true)
+		if c0 != "ok" {
+			c.rep.Baselines = append(c.rep.Baselines, fmt.Sprintf("template zero-address %s: lock with zero withdrawal address fails verification: %s %s", v, c0, d0))
+			continue
+		}
+		c.rep.Mutants++
+		c.rep.ByAlt["template.zero-address-emptied"]++
+		c1, _ := verifyLockJSON(mut, true)
+		c.rep.Classes[c1]++
+		if c1 == "ok" {
+			c.rep.Survivors = append(c.rep.Survivors, Survivor{Source: Source{Kind: "template-zero-address", Version: v, Spec: &sp},
+				Mutation: Mutation{Path: "cluster_definition.validators[0].withdrawal_address", Alt: "template.zero-address-emptied"},
+				Class:    "violation", Key: "empty-address-equals-zero-address", Orig: zeroAddr, New: "\"\""})
 		}
 	}
 	// golden survivors: a gap of the hashes that full verification closes is enumerated, not reported
@@ -866,6 +954,19 @@ func TestReplay(t *testing.T) {
 			doc, _ = json.MarshalIndent(lock.Definition, "", " ")
 			isLock = false
 		}
+	case "template-address-shift":
+		orig, mut := addressShift(t, src.Version, 7)
+		c0, _ := verifyLockJSON(orig, true)
+		c1, d1 := verifyLockJSON(mut, true)
+		_ = hx.WriteJSON("c12_replay.json", map[string]any{"source": src, "mutation": rp.Mutation, "original_verifies": c0, "mutated_verifies": c1, "detail": d1})
+		fmt.Printf("c12 replay: address-shift %s: original=%s mutated=%s %s\n", src.Version, c0, c1, d1)
+		return
+	case "template-zero-address":
+		orig, mut := zeroAddressEmptied(t, *src.Spec)
+		c0, _ := verifyLockJSON(orig, true)
+		c1, d1 := verifyLockJSON(mut, true)
+		_ = hx.WriteJSON("c12_replay.json", map[string]any{"source": src, "mutation": rp.Mutation, "original_verifies": c0, "mutated_verifies": c1, "detail": d1})
+		return
 	case "cli-lock":
 		dir := t.TempDir()
 		if out, err := createCluster(os.Getenv("VERIF_CHARON_BIN"), dir, *src.Shape); err != nil {
